@@ -6,6 +6,7 @@ type C18Case struct {
 	Launch string   `json:"launch"` // cmd | runner
 	Steps  []string `json:"steps"`  // dispense | call | h2p (plugin accepts, host dials) | p2h (host accepts, plugin dials) | stdio
 	ExitMs int      `json:"exitMs"` // plugin cleanup duration after the shutdown request
+	KillRacesAccepts bool `json:"killRacesAccepts"` // (gRPC, no mux) eight host goroutines keep calling broker.Accept(NextId()) while Kill runs
 	KeepConns bool  `json:"keepConns"` // brokered connections the host dialled are still open when Kill is called
 }
 
@@ -16,6 +17,7 @@ type C18Obs struct {
 	Marker        bool     `json:"marker"` // the plugin finished its cleanup (graceful exit)
 	PluginDirLeft []string `json:"pluginDirLeft"`
 	HostDirLeft   []string `json:"hostDirLeft"`
+	HostTmpLeft   []string `json:"hostTmpLeft"` // plugin* sockets that appeared in the host's own TMPDIR during the case and are still there
 	GoBefore      int      `json:"goBefore"` // goroutines with go-plugin frames before the case
 	GoAfter       int      `json:"goAfter"`  // ... after Kill, polled up to 10 s
 	GoWaitMs      int64    `json:"goWaitMs"`
